@@ -11,8 +11,8 @@ import (
 	"time"
 
 	"github.com/sheerbytes/sheerbytes/internal/transfer"
-	vrt "github.com/sheerbytes/sheerbytes/internal/verif/vrt"
 	"github.com/sheerbytes/sheerbytes/internal/verif/vlib"
+	vrt "github.com/sheerbytes/sheerbytes/internal/verif/vrt"
 	"github.com/sheerbytes/sheerbytes/pkg/manifest"
 )
 
